@@ -236,7 +236,14 @@ class Typer:
             if isinstance(x[0], str) and x[0] in ("arg", "deref", "refto", "as", "field"):
                 p = self.path(x)
                 if p is not None:
-                    out.add(p)
+                    base, projected = x, False
+                    while isinstance(base, tuple) and base and base[0] in ("deref", "refto", "as", "field"):
+                        projected = projected or base[0] in ("as", "field")
+                        base = base[1]
+                    if isinstance(base, tuple) and base and base[0] == "call" and not projected:
+                        walk(base[2], False)     # the call's own value: what it was computed from
+                    else:
+                        out.add(p)               # an argument-rooted datum, or a field of a call's result (`look_up(..).steps`)
                     return
             for y in (x[1:] if isinstance(x[0], str) else x):
                 if isinstance(y, tuple):
